@@ -41,7 +41,7 @@ fn check_spans(src: &str) -> Result<(), String> {
 #[derive(Clone, Debug)]
 struct Decl { word: &'static str, names: Vec<&'static str>, sep: &'static str, exclusive: bool }
 #[derive(Clone, Debug)]
-enum Pat { Lit(String), Star(char), Plus(Vec<char>), Opt(char, char) }
+enum Pat { Lit(String), Star(char), Plus(Vec<char>), Opt(char, char), Esc(&'static str, &'static str) }   // Esc(written regex, the one string it matches)
 impl Pat {
     fn render(&self) -> String {
         match self {
@@ -49,6 +49,7 @@ impl Pat {
             Pat::Star(c) => format!("{}*", c),
             Pat::Plus(cs) => format!("[{}]+", cs.iter().collect::<String>()),
             Pat::Opt(x, y) => format!("{}?{}", x, y),
+            Pat::Esc(w, _) => w.to_string(),
         }
     }
     /// length of the match at the start of `s`, if any (all forms are greedy: leftmost-first = longest)
@@ -61,6 +62,7 @@ impl Pat {
                 let mut it = s.chars();
                 match it.next() { Some(a) if a == *x => if it.next() == Some(*y) { Some(2) } else { None }, Some(a) if a == *y => Some(1), _ => None }
             }
+            Pat::Esc(_, m) => if s.starts_with(m) { Some(m.len()) } else { None },
         }
     }
 }
@@ -106,13 +108,16 @@ fn gen_desc(rng: &mut Lcg) -> Desc {
     let nr = 2 + rng.next(4);
     for k in 0..nr {
         let abc = ['a', 'b', 'c'];
-        let pat = match rng.next(6) {
+        // escapes: a backslash before a character that is special neither to lex nor to the regex engine stands for that
+        // character; \\x.. / \\u.... are handed to the regex engine
+        const ESCS: &[(&str, &str)] = &[("\\c", "c"), ("\\x61", "a"), ("\\xe9", "é"), ("\\u00e9", "é"), ("\\xE9", "é"), ("\\x63\\x62", "cb")];
+        let pat = if rng.next(5) == 0 { let e = ESCS[rng.next(ESCS.len())]; Pat::Esc(e.0, e.1) } else { match rng.next(6) {
             0 => Pat::Star(abc[rng.next(3)]),
             1 => { let a = abc[rng.next(3)]; let b = abc[rng.next(3)]; Pat::Plus(if a == b { vec![a] } else { vec![a, b] }) }
             2 => { let a = abc[rng.next(3)]; let b = abc[(rng.next(2) + 1 + abc.iter().position(|c| *c == a).unwrap()) % 3]; Pat::Opt(a, b) }
             3 => Pat::Lit(format!("{}{}", abc[rng.next(3)], abc[rng.next(3)])),
             _ => Pat::Lit(abc[rng.next(3)].to_string()),
-        };
+        } };
         let mut restrict = Vec::new();
         for _ in 0..rng.next(3) { let s = rng.next(nst); if !restrict.contains(&s) { restrict.push(s); } }
         let name = match rng.next(4) { 0 => None, 1 => Some((format!("T{}", k), '"')), _ => Some((format!("T{}", k), '\'')) };
@@ -196,7 +201,7 @@ fn check_desc(d: &Desc, src: &str, inputs: &[String]) -> Result<(), String> {
     if rules.len() != d.rules.len() { return Err(format!("{} rules, written {}", rules.len(), d.rules.len())); }
     for (k, (r, rd)) in rules.iter().zip(d.rules.iter()).enumerate() {
         if r.name() != rd.name.as_ref().map(|x| x.0.as_str()) { return Err(format!("rule {}: name {:?}, written {:?}", k, r.name(), rd.name)); }
-        if r.re_str() != rd.pat.render() { return Err(format!("rule {}: regex {:?}, written {:?}", k, r.re_str(), rd.pat.render())); }
+        if !matches!(rd.pat, Pat::Esc(..)) && r.re_str() != rd.pat.render() { return Err(format!("rule {}: regex {:?}, written {:?}", k, r.re_str(), rd.pat.render())); }
         if r.start_states() != rd.restrict.as_slice() { return Err(format!("rule {}: restricted to states {:?}, written {:?}", k, r.start_states(), rd.restrict)); }
         let exp_t = rd.target.map(|(t, op)| (t, match op { 0 => StartStateOperation::ReplaceStack, 1 => StartStateOperation::Push, _ => StartStateOperation::Pop }));
         if r.target_state() != exp_t { return Err(format!("rule {}: target {:?}, written {:?}", k, r.target_state(), exp_t)); }
@@ -222,7 +227,7 @@ fn check_desc(d: &Desc, src: &str, inputs: &[String]) -> Result<(), String> {
 fn inputs_for(d: &Desc, rng: &mut Lcg) -> Vec<String> {
     let n = d.rules.len();
     let _ = n;
-    (0..8).map(|_| { let l = 1 + rng.next(6); (0..l).map(|_| (b'a' + rng.next(3) as u8) as char).collect() }).collect()
+    (0..8).map(|_| { let l = 1 + rng.next(6); (0..l).map(|_| ['a', 'b', 'c', 'é'][rng.next(4)]).collect() }).collect()
 }
 
 pub fn run(src: &str) -> Outcome {
